@@ -315,6 +315,167 @@ func asUnsupported(r interface{}) (Unsupported, bool) {
 	return Unsupported{}, false
 }
 
+// searchLoop: a `for k, v := range m { … }` whose body has no effect but may
+// leave the loop (return / break) - "is there a key such that …".  Without any
+// annotation it has an exact summary, because with no effects the order of the
+// iteration cannot matter: either some present key k satisfies the exit
+// condition E(k) and the loop is left from the body with that k (any such k may
+// be the first one the runtime picks), or the iterator is exhausted and then no
+// present key satisfies E.  The executor runs the body once for a fresh key
+// (back edge dropped) and, for the exhausted case, assumes
+// forall j. present(j) => !E(j), E being the disjunction of the path conditions
+// of the edges that leave the loop from the body, with k := j.
+type searchLoop struct {
+	header *ssa.BasicBlock
+	body   map[*ssa.BasicBlock]bool
+	exits  *Term // disjunction of the leaving edges' path conditions
+	k, ok  *Term
+	cand   func(key *Term) *Term
+	pc     *Term
+	ks     *Sort
+}
+
+// pureSearchLoops: every loop of fn is a range-over-map loop whose body is
+// free of effects; nil otherwise.
+func pureSearchLoops(fn *ssa.Function, fi *fnInfo) map[*ssa.BasicBlock]*searchLoop {
+	out := map[*ssa.BasicBlock]*searchLoop{}
+	for _, h := range fi.headers {
+		// natural loop of h
+		body := map[*ssa.BasicBlock]bool{h: true}
+		var stack []*ssa.BasicBlock
+		for k, p := range h.Preds {
+			if fi.back[h][k] && !body[p] {
+				body[p] = true
+				stack = append(stack, p)
+			}
+		}
+		for len(stack) > 0 {
+			n := stack[len(stack)-1]
+			stack = stack[:len(stack)-1]
+			for _, p := range n.Preds {
+				if !body[p] {
+					body[p] = true
+					stack = append(stack, p)
+				}
+			}
+		}
+		// the header: next, extracts, the test - nothing loop-carried
+		hasNext := false
+		for _, ins := range h.Instrs {
+			switch i := ins.(type) {
+			case *ssa.Next:
+				if i.IsString {
+					return nil
+				}
+				if _, ok := i.Iter.(*ssa.Range); !ok {
+					return nil
+				}
+				if _, isMap := i.Iter.(*ssa.Range).X.Type().Underlying().(*types.Map); !isMap {
+					return nil
+				}
+				hasNext = true
+			case *ssa.Extract, *ssa.If, *ssa.DebugRef:
+			default:
+				return nil
+			}
+		}
+		if !hasNext {
+			return nil
+		}
+		for blk := range body {
+			if blk == h {
+				continue
+			}
+			if fi.back[blk] != nil {
+				return nil // nested loop
+			}
+			for _, ins := range blk.Instrs {
+				switch i := ins.(type) {
+				case *ssa.Extract, *ssa.If, *ssa.Jump, *ssa.DebugRef, *ssa.Lookup, *ssa.BinOp, *ssa.Convert, *ssa.ChangeType,
+					*ssa.Field, *ssa.FieldAddr, *ssa.Index, *ssa.IndexAddr, *ssa.Phi, *ssa.MakeInterface, *ssa.ChangeInterface:
+				case *ssa.UnOp:
+					if i.Op == token.ARROW {
+						return nil
+					}
+				case *ssa.TypeAssert:
+					if !i.CommaOk {
+						return nil
+					}
+				case *ssa.Call:
+					bi, ok := i.Call.Value.(*ssa.Builtin)
+					if !ok || bi.Name() != "len" && bi.Name() != "cap" {
+						return nil
+					}
+				default:
+					return nil
+				}
+			}
+		}
+		out[h] = &searchLoop{header: h, body: body}
+	}
+	if len(out) == 0 {
+		return nil
+	}
+	return out
+}
+
+// searchNext: the iterator step of a summarised search loop: ok => k is a
+// present key (any); !ok => the iterator is exhausted (closed by closeSearchLoop).
+func (x *Exec) searchNext(sl *searchLoop, iter Value, st *State, pc *Term) Value {
+	b := x.b
+	it, ok := iter.(*IterV)
+	if !ok {
+		unsupported("next on %T", iter)
+	}
+	m := it.Map
+	ks, vs := mapObjSorts(m.T)
+	var present, vals *Term
+	if m.Obj == nil {
+		present = b.ConstArr(Arr(ks, BoolS()), b.False())
+	} else {
+		mv := st.h[m.Obj].(*StructV)
+		present = mv.F[0].(*Term)
+		if mv.F[1] != nil {
+			vals = mv.F[1].(*Term)
+		}
+	}
+	nilm := x.mapNil(m)
+	k := b.Fresh("searchkey", ks)
+	okv := b.Fresh("searchok", BoolS())
+	for _, o := range st.h {
+		if mv, ok := o.(*StructV); ok && len(mv.F) == 2 {
+			if pt, ok := mv.F[0].(*Term); ok && pt.S.String() == present.S.String() {
+				x.noteSelect(pt, k)
+			}
+		}
+	}
+	cand := func(key *Term) *Term { return b.And(b.Not(nilm), b.Select(present, key)) }
+	x.assume(b.Implies(pc, b.Implies(okv, cand(k))))
+	sl.k, sl.ok, sl.cand, sl.pc, sl.ks, sl.exits = k, okv, cand, pc, ks, b.False()
+	var val Value
+	if vs != nil && vals != nil {
+		val = b.Select(vals, k)
+	} else {
+		val = x.zeroV(m.T.Elem())
+	}
+	return &TupleV{E: []Value{okv, k, val}}
+}
+
+// closeSearchLoop: exhausted iterator => no present key leaves the loop.
+func (x *Exec) closeSearchLoop(sl *searchLoop) {
+	if sl.k == nil {
+		return // the loop was not reached
+	}
+	b := x.b
+	j := b.BoundVar("sj", sl.ks)
+	e := b.Subst(sl.exits, map[*Term]*Term{sl.k: j, sl.ok: b.True()}, map[*Term]*Term{})
+	x.assume(b.Implies(b.And(sl.pc, b.Not(sl.ok)), b.Forall([]*Term{j}, b.Implies(sl.cand(j), b.Not(e)))))
+	// ... and a key that is produced is one that leaves the loop (the paths on
+	// which the chosen key does not were dropped: their outcomes are the ones of
+	// the other choices)
+	x.assume(b.Implies(b.And(sl.pc, sl.ok), sl.exits))
+}
+
 // needUnwind is raised by the exact unrolling when a test does not fold.
 type needUnwind struct{}
 
@@ -747,8 +908,20 @@ func (x *Exec) run(fn *ssa.Function, args []Value, st *State, pcIn *Term) (Value
 	}
 	// duplicate predecessor handling: If with both successors equal
 	unwinding := false // a loop without invariant whose tests do not fold: unrolled symbolically (see unwind below)
+	var summary map[*ssa.BasicBlock]*searchLoop // header -> pure search loop over a map (summarised, see searchLoop)
 	var vals map[ssa.Value]Value
 	setEdge := func(from, to *ssa.BasicBlock, succIdx int, e edge) {
+		if summary != nil && e.cond != nil {
+			for h, sl := range summary {
+				if to == h && sl.body[from] {
+					// back edge: this key does not end the search; the outcomes of the
+					// other keys are covered by the other choices of the key
+					e.cond = b.False()
+				} else if sl.body[from] && from != h && !sl.body[to] {
+					sl.exits = b.Or(sl.exits, e.cond)
+				}
+			}
+		}
 		if unwinding && e.cond != nil && e.cond.Op != "false" {
 			e.vals = make(map[ssa.Value]Value, len(vals))
 			for k, v := range vals {
@@ -788,8 +961,13 @@ func (x *Exec) run(fn *ssa.Function, args []Value, st *State, pcIn *Term) (Value
 			}
 		}
 		if !covered {
-			// no invariants (or not for every loop the function has now): unrolled
-			concrete = true
+			// no invariants (or not for every loop the function has now): a pure
+			// search loop over a map is summarised, anything else unrolled
+			if ps := pureSearchLoops(fn, fi); ps != nil {
+				summary = ps
+			} else {
+				concrete = true
+			}
 		} else {
 			loops = x.newLoopCtx(fn, fi)
 		}
@@ -1094,6 +1272,10 @@ func (x *Exec) run(fn *ssa.Function, args []Value, st *State, pcIn *Term) (Value
 			case *ssa.Range:
 				vals[i] = x.rangeStart(i, get(i.X))
 			case *ssa.Next:
+				if sl := summary[blk]; sl != nil {
+					vals[i] = x.searchNext(sl, get(i.Iter), cur, pc)
+					break
+				}
 				if loops == nil && !unwinding {
 					panic(needUnwind{})
 				}
@@ -1132,6 +1314,9 @@ func (x *Exec) run(fn *ssa.Function, args []Value, st *State, pcIn *Term) (Value
 	if !concrete {
 		for _, blk := range fi.order {
 			processBlock(blk)
+		}
+		for _, sl := range summary {
+			x.closeSearchLoop(sl)
 		}
 	} else {
 		// Exact unrolling: follow the one successor whose edge condition folded
